@@ -126,7 +126,12 @@ class ImEmu(object):
         j = self.j
         cpu = j.cpu
         addr = self.place(code, nlines)
-        cpu.set_gpreg(state)
+        if self.arch == "aarch64l":
+            # JitCore_aarch64.set_gpreg rejects the 8-bit flag registers ("Unsupported size"): plain attribute writes
+            for k, v in state.items():
+                setattr(cpu, k, v)
+        else:
+            cpu.set_gpreg(state)
         cpu.set_exception(0)
         j.vm.set_exception(0)
         j.jit.options["jit_maxline"] = nlines
@@ -290,6 +295,350 @@ def im_judge(tpl, vals, fidx):
 
 
 # =============================================================================================
+# (cc) compiled-C differential stratum
+
+OPTS = ["-O0", "-O1", "-O2", "-Os"]
+CC_INPUTS = [
+    ([5, 0x80000001, 77], [(i * 0x01010101 + 3) & 0xffffffff for i in range(8)]),
+    ([0xffffffff, 0x7fffffff, 0x12345678], [0xfffffff0 + i for i in range(8)]),
+    ([0, 0, 0], [0] * 8),
+    ([0x80000000, 3, 0xfffffff9], [0x80000000, 0x7fffffff, 0xff, 0x8000, 0xdeadbeef, 1, 0xffff0000, 0x00ff00ff]),
+]
+RUNAWAY_BLOCKS = 60000
+
+
+def be_view(src):
+    """C text whose byte / half-word views of `arr` behave, on the little-endian host, like the same accesses on a
+    big-endian target: byte index ^ 3, half-word index ^ 1 (word accesses are unaffected)."""
+    pats = [("((uint8_t *)arr)[", 3), ("((int8_t *)arr)[", 3), ("((uint16_t *)arr)[", 1), ("((int16_t *)arr)[", 1)]
+    named = []
+    if "uint8_t *p = (uint8_t *)arr" in src:
+        named.append(("p[", 3))
+    if "uint16_t *h = (uint16_t *)arr" in src:
+        named.append(("h[", 1))
+
+    def tr(s):
+        best = None
+        for pat, k in pats:
+            i = s.find(pat)
+            if i >= 0 and (best is None or i < best[0]):
+                best = (i, pat, k)
+        for pat, k in named:
+            for m in re.finditer(r"(?<![A-Za-z0-9_])" + re.escape(pat), s):
+                if best is None or m.start() < best[0]:
+                    best = (m.start(), pat, k)
+                break
+        if best is None:
+            return s
+        i, pat, k = best
+        j = i + len(pat)
+        depth = 1
+        e = j
+        while depth:
+            ch = s[e]
+            if ch == "[":
+                depth += 1
+            elif ch == "]":
+                depth -= 1
+            e += 1
+        inner = tr(s[j:e - 1])
+        return s[:i] + pat + "((" + inner + ") ^ %d)]" % k + tr(s[e:])
+    return tr(src)
+
+
+class Native2(object):
+    """The C text compiled by the host gcc (-O1) and the host clang (-O0); a result counts only if both agree."""
+
+    def __init__(self, funcs, workdir, tag, big_endian):
+        import ctypes
+        import subprocess
+        from vlib import ccorpus
+        if big_endian:
+            funcs = [(t, be_view(src)) for t, src in funcs]
+        self.libs = []
+        src = os.path.join(workdir, "%s_native.c" % tag)
+        with open(src, "w") as f:
+            f.write(ccorpus.render(funcs, 32))
+        for k, cmd in enumerate((["gcc", "-O1", "-fwrapv"], ["clang", "-O0"])):
+            so = os.path.join(workdir, "%s_native%d.so" % (tag, k))
+            p = subprocess.run(cmd + ["-w", "-shared", "-fPIC", src, "-o", so], stdout=subprocess.PIPE,
+                               stderr=subprocess.STDOUT)
+            if p.returncode != 0:
+                raise RuntimeError("host compiler failed: " + p.stdout.decode("utf8", "replace")[-1500:])
+            self.libs.append(ctypes.CDLL(so))
+        self.ct = ctypes.c_uint32
+        self.ctypes = ctypes
+
+    def call(self, k, args, arr):
+        """-> (ret, arr) or None when the two host compilers disagree"""
+        ct = self.ct
+        outs = []
+        for lib in self.libs:
+            fn = getattr(lib, "f%d" % k)
+            fn.restype = ct
+            fn.argtypes = [ct, ct, ct, self.ctypes.POINTER(ct)]
+            buf = (ct * 8)(*arr)
+            r = fn(args[0], args[1], args[2], buf)
+            outs.append((int(r), [int(x) for x in buf]))
+        if outs[0] != outs[1]:
+            return None
+        return outs[0]
+
+
+_FORM_NUM = re.compile(r"(?<![A-Za-z_])-?(0x[0-9A-Fa-f]+|\d+)\b")
+_FORM_REG = re.compile(r"\b(R\d+|X\d+|W\d+|XZR|WZR|SP|LR|PC|ZERO|AT|V[01]|A[0-3]|T\d|S\d|K[01]|GP|FP|RA|WSP)\b")
+
+
+def form_of(text):
+    """instruction text -> (mnemonic, operand-shape form)"""
+    parts = text.split(None, 1)
+    mn = parts[0]
+    ops = parts[1] if len(parts) > 1 else ""
+    ops = _FORM_NUM.sub("i", ops)
+    ops = _FORM_REG.sub("r", ops)
+    ops = re.sub(r"loc_key_\d+|loc_[0-9a-fA-F]+", "L", ops)
+    return mn, mn + " " + "".join(ops.split())
+
+
+class CcRunner(object):
+    """One program (code bytes for one arch) on a fresh python jitter; several input vectors."""
+
+    def __init__(self, arch, code):
+        from miasm.analysis.machine import Machine
+        from miasm.core.locationdb import LocationDB
+        from vlib import jitlab, ccorpus
+        self.arch = arch
+        self.lay = jitlab.layout(arch)
+        self.t = ccorpus.TARGETS[arch]
+        self.j = Machine(arch).jitter(LocationDB(), "python")
+        lay = self.lay
+        self.arr_addr = lay["data"] + 0x40
+        self.j.vm.add_memory_page(lay["code"], 3, bytes(code), "code")
+        self.j.vm.add_memory_page(lay["stack"], 3, b"\0" * lay["stack_size"], "stack")
+        self.j.vm.add_memory_page(lay["data"], 3, b"\0" * 0x100, "data")
+        self.j.jit.log_mn = True
+        self.base_regs = dict(self.j.cpu.get_gpreg())
+
+        def stop(jj):
+            jj.running = False
+            return False
+        self.j.add_breakpoint(lay["sentinel"], stop)
+        self.nblocks = 0
+
+        def ecb(jj):
+            self.nblocks += 1
+            if self.nblocks > RUNAWAY_BLOCKS:
+                jj.running = False
+                return "runaway"
+            return True
+        self.j.exec_cb = ecb
+
+    def run(self, args, arr):
+        """-> dict(kind='ok'|'unsupported'|'error'|'runaway'|'jitexc', ret, arr, trace [(addr, text)], ...)"""
+        from vlib import jitlab, ccorpus
+        from miasm.jitter.jitload import JitterException
+        j, lay, t = self.j, self.lay, self.t
+        regs, stack = jitlab.call_setup(self.arch, lay["code"], list(args) + [self.arr_addr], lay["sentinel"],
+                                        lay["stack"], lay["stack_size"])
+        for k, v in self.base_regs.items():
+            setattr(j.cpu, k, 0)
+        for k, v in regs.items():
+            if self.arch == "aarch64l" and k in ("X0", "X1", "X2"):
+                v |= 0xdead5eed00000000          # the ABI leaves the upper halves of 32-bit arguments unspecified
+            setattr(j.cpu, k, v)
+        j.vm.set_mem(lay["stack"], stack)
+        data = bytearray(0x100)
+        data[0x40:0x60] = ccorpus.pack_words(arr, 32, t["be"])
+        for i in range(0x60, 0x80):
+            data[i] = 0xA5
+        for i in range(0x20, 0x40):
+            data[i] = 0x5A
+        j.vm.set_mem(lay["data"], bytes(data))
+        j.vm.set_exception(0)
+        j.cpu.set_exception(0)
+        self.nblocks = 0
+        buf = io.StringIO()
+        out = {"kind": "ok"}
+        with contextlib.redirect_stdout(buf):
+            try:
+                j.init_run(lay["code"])
+                r = j.continue_run()
+                if r == "runaway":
+                    out["kind"] = "runaway"
+            except JitterException as e:
+                out["kind"] = "unsupported" if e.exception_flag & EXC_UNK_MNEMO else "jitexc"
+                out["flags"] = e.exception_flag
+            except NotImplementedError as e:
+                out["kind"] = "unsupported"
+                out["msg"] = "NotImplementedError:" + str(e)[:80]
+            except Exception as e:
+                msg = str(e)
+                if isinstance(e, ValueError) and msg.startswith("unknown mnemo"):
+                    out["kind"] = "unsupported"
+                    out["msg"] = "no-semantics:" + " ".join(msg.split()[2:3])
+                else:
+                    out["kind"] = "error"
+                    out["exc"] = type(e).__name__
+                    out["where"] = where_in_miasm(e)
+                    out["msg"] = msg[:200]
+        trace = []
+        for ln in buf.getvalue().splitlines():
+            m = re.match(r"^([0-9A-F]{8,16}) (.*)$", ln)
+            if m:
+                trace.append((int(m.group(1), 16), " ".join(m.group(2).split())))
+        out["trace"] = trace
+        out["pc"] = j.pc
+        if out["kind"] == "ok":
+            out["ret"] = getattr(j.cpu, jitlab.RET_REG[self.arch]) & 0xffffffff
+            out["arr"] = ccorpus.unpack_words(j.vm.get_mem(self.arr_addr, 32), 32, t["be"])
+            mem = j.vm.get_mem(lay["data"], 0x100)
+            out["guard_ok"] = (mem[0x20:0x40] == b"\x5a" * 0x20 and mem[0x60:0x80] == b"\xa5" * 0x20)
+        return out
+
+
+def cc_compile(arch, opt, funcs, workdir, tag):
+    from vlib import ccorpus, jitlab
+    out, err = ccorpus.compile_batch(funcs, arch, opt, workdir, jitlab.layout(arch)["code"], tag=tag)
+    return out
+
+
+def cc_unsupported_text(arch, code, pc):
+    """llvm's reading of the instruction miasm could not decode / lift (evidence only)"""
+    from vlib import isamodels as I
+    from vlib import jitlab
+    off = pc - jitlab.layout(arch)["code"]
+    if not (0 <= off < len(code)):
+        return "?"
+    try:
+        return I.llvm_disasm(arch, code[off:off + 4]).split()[0]
+    except Exception:
+        return "?"
+
+
+class CcState(object):
+    """per-shard bookkeeping for spectrum localisation: instruction forms seen in runs that matched the oracle"""
+
+    def __init__(self):
+        self.passed = collections.defaultdict(set)      # arch -> forms
+        self.pending = []                               # failures waiting for the end of the shard
+
+
+def cc_judge_run(arch, out, exp):
+    """-> (status, resource, detail): status 'pass' | 'fail' | 'unsupported' | 'error'"""
+    if out["kind"] == "unsupported":
+        return "unsupported", None, out.get("msg", "UNK_MNEMO")
+    if out["kind"] == "error":
+        op = ""
+        m = re.search(r"simplification is missing: .*?([A-Za-z_][A-Za-z0-9_<>=]*)\(", out["msg"])
+        if m:
+            op = ":" + m.group(1)
+        return "error", "emul-error:%s@%s%s" % (out["exc"], out["where"], op), out["msg"]
+    if out["kind"] == "runaway":
+        return "fail", "runaway", "no return after %d translated-block executions (the native run returns)" % RUNAWAY_BLOCKS
+    if out["kind"] == "jitexc":
+        return "fail", "jitter-exception", "JitterException flags 0x%x at pc=0x%x" % (out["flags"], out["pc"])
+    eret, earr = exp
+    if out["ret"] != eret:
+        return "fail", "ret", "return value emulated=0x%x native=0x%x" % (out["ret"], eret)
+    if out["arr"] != earr:
+        d = [i for i in range(8) if out["arr"][i] != earr[i]]
+        return "fail", "arr", "arr[%d] emulated=0x%x native=0x%x (%d words differ)" % (d[0], out["arr"][d[0]], earr[d[0]], len(d))
+    if not out["guard_ok"]:
+        return "fail", "arr-guard", "bytes around the 8-word array were modified"
+    return "pass", None, ""
+
+
+def cc_plan(tier):
+    """-> (units [(arch, opt, part)], deterministic function list, number of parts)"""
+    from vlib import ccorpus
+    thorough = tier == "thorough"
+    parts = 6 if thorough else 2
+    ngen = 59 if thorough else 11
+    funcs = ccorpus.fixed_functions("arml") + ccorpus.gen_functions(0, ngen, "arml")
+    units = [(arch, opt, part) for arch in ARCHS for opt in OPTS for part in range(parts)]
+    return units, funcs, parts
+
+
+class CcCtx(object):
+    """compilation / native-library caches of one shard (or one replay)"""
+
+    def __init__(self, wd):
+        self.wd = wd
+        self.n = 0
+        self.natives = {}
+        self.compiled = {}
+
+    def compile(self, arch, opt, funcs):
+        key = (arch, opt, tuple(t for t, _ in funcs))
+        if key not in self.compiled:
+            self.n += 1
+            out = cc_compile(arch, opt, funcs, self.wd, "c%d" % self.n)
+            self.compiled[key] = [r["code"] for r in out]
+        return self.compiled[key]
+
+    def native(self, funcs, be):
+        key = (be, tuple(t for t, _ in funcs))
+        if key not in self.natives:
+            self.n += 1
+            self.natives[key] = Native2(funcs, self.wd, "n%d" % self.n, be)
+        return self.natives[key]
+
+
+def cc_explain(ctx, case, out, status, resource, detail):
+    """-> (bucket, detail text) for a failing run; value mismatches are localised by spectrum: instruction forms of
+    the failing trace that no passing run of the same function (4 optimisation levels x fixed inputs + the failing
+    input) executes are the suspects."""
+    arch, opt = case["arch"], case["opt"]
+    head = "%s %s %s(a=0x%x, b=0x%x, c=0x%x, arr=[%s])" % (arch, opt, case["tag"], case["args"][0], case["args"][1],
+                                                          case["args"][2], ",".join("0x%x" % x for x in case["arr"]))
+    src = case["src"].replace("{f}", "f")
+    trace = out["trace"]
+    if status == "error":
+        at = "lift"
+        if trace and ("symbexec" in out["where"] or "expression" in out["where"] or "jitcore_python" in out["where"]):
+            at = trace[-1][1].split(None, 1)[0]
+        bucket = "%s|cc|%s|%s" % (arch, at, resource)
+        last = ("; last instruction started: `%s` at 0x%x" % (trace[-1][1], trace[-1][0])) if trace else ""
+        return bucket, "%s: emulation raised %s: %s%s -- C: %s" % (head, out["exc"], detail, last, src)
+    forms = collections.OrderedDict()
+    for _a, txt in trace:
+        mn, f = form_of(txt)
+        forms.setdefault(f, mn)
+    passed = set()
+    funcs = [(case["tag"], case["src"])]
+    from vlib import ccorpus
+    nat = ctx.native(funcs, ccorpus.TARGETS[arch]["be"])
+    for o in OPTS:
+        code = ctx.compile(arch, o, funcs)[0]
+        if code is None:
+            continue
+        runner = CcRunner(arch, code)
+        for args, arr in CC_INPUTS + [(case["args"], case["arr"])]:
+            exp = nat.call(0, args, arr)
+            if exp is None:
+                continue
+            o2 = runner.run(args, arr)
+            st2, _r, _d = cc_judge_run(arch, o2, exp)
+            if st2 == "pass":
+                for _a, txt in o2["trace"]:
+                    passed.add(form_of(txt)[1])
+            elif st2 in ("unsupported", "error"):
+                break
+    suspects = [(f, mn) for f, mn in forms.items() if f not in passed]
+    mns = sorted(set(mn for _f, mn in suspects))
+    if not mns:
+        who = "func:%s" % case["tag"].split("_")[0]
+    elif len(mns) <= 3:
+        who = "+".join(mns)
+    else:
+        who = "+".join(mns[:3]) + "+.."
+    bucket = "%s|cc|%s|%s" % (arch, who, resource)
+    det = "%s: %s; %d instructions executed; instruction forms not executed by any passing run of this function: %s -- C: %s" % (
+        head, detail, len(trace), ", ".join(f for f, _ in suspects[:12]) or "(none)", src)
+    return bucket, det
+
+
+# =============================================================================================
 
 
 class C19(Check):
@@ -311,8 +660,97 @@ class C19(Check):
     def _run_shard(self, tier, seed, shard, nshards):
         res = ShardResult()
         res.max_failures_per_bucket = 2
-        self.run_im(res, tier, seed, shard, nshards)
+        which = os.environ.get("C19_PART", "cc,im")
+        if "cc" in which:
+            self.run_cc(res, tier, seed, shard, nshards)
+        if "im" in which:
+            self.run_im(res, tier, seed, shard, nshards)
         return res
+
+    # -- (cc) ---------------------------------------------------------------------------------
+    def run_cc(self, res, tier, seed, shard, nshards):
+        from vlib import ccorpus
+        units, funcs_all, parts = cc_plan(tier)
+        mine = [u for i, u in enumerate(units) if i % nshards == shard]
+        only = os.environ.get("C19_ONLY")
+        if only:
+            mine = [u for u in mine if re.fullmatch(only.split(":")[0], u[0])]
+        wd = tempfile.mkdtemp(prefix="c19-%d-" % shard, dir=scratch_root())
+        try:
+            ctx = CcCtx(wd)
+            for arch, opt, part in mine:
+                funcs = [f for k, f in enumerate(funcs_all) if k % parts == part]
+                inputs = [CC_INPUTS] * len(funcs)
+                self.cc_unit(res, ctx, arch, opt, funcs, inputs, "d%d" % part, "det")
+            # seeded supplement: generated programs and generated inputs
+            nprog = 24 if tier == "thorough" else 6
+            rng = random.Random(seed)
+            from vlib import hyp
+            from hypothesis import strategies as st
+            word = st.one_of(st.sampled_from([0, 1, 2, 0x7f, 0x80, 0xff, 0x7fff, 0x8000, 0xffff, 0x7fffffff,
+                                              0x80000000, 0xfffffffe, 0xffffffff]), st.integers(0, 0xffffffff),
+                             st.integers(0, 64))
+            vec = st.tuples(st.lists(word, min_size=3, max_size=3), st.lists(word, min_size=8, max_size=8))
+            strat = st.tuples(st.integers(1, 1 << 30), st.lists(vec, min_size=3, max_size=3))
+            drawn = []
+            hyp.survey(strat, nprog, seed, drawn.append)
+            for r in range(0, len(drawn), 3):
+                group = drawn[r:r + 3]
+                arch = ARCHS[(shard + r // 3 + rng.randrange(len(ARCHS))) % len(ARCHS)]
+                if only and not re.fullmatch(only.split(":")[0], arch):
+                    continue
+                opt = rng.choice(OPTS)
+                funcs = [ccorpus.gen_functions(ps, 1, arch)[0] for ps, _ in group]
+                inputs = [[(list(a), list(b)) for a, b in vecs] for _, vecs in group]
+                self.cc_unit(res, ctx, arch, opt, funcs, inputs, "r%d" % r, "rand")
+        finally:
+            shutil.rmtree(wd, ignore_errors=True)
+
+    def cc_unit(self, res, ctx, arch, opt, funcs, inputs, tag, stratum):
+        from vlib import ccorpus
+        be = ccorpus.TARGETS[arch]["be"]
+        progs = ctx.compile(arch, opt, funcs)
+        nat = ctx.native(funcs, be)
+        mncount = collections.Counter()
+        for k, (ftag, src) in enumerate(funcs):
+            code = progs[k]
+            if code is None:
+                res.dropped["cc: function dropped at compilation (relocation / no section)"] += 1
+                continue
+            runner = CcRunner(arch, code)
+            for args, arr in inputs[k]:
+                exp = nat.call(k, args, arr)
+                if exp is None:
+                    res.dropped["cc: host gcc and host clang disagree on the expected value"] += 1
+                    continue
+                out = runner.run(args, arr)
+                status, resource, detail = cc_judge_run(arch, out, exp)
+                if status == "unsupported":
+                    mn = cc_unsupported_text(arch, code, out["pc"]) if detail == "UNK_MNEMO" else detail
+                    res.dropped["cc: program reaches an instruction miasm does not decode or lift (unsupported)"] += 1
+                    res.counters["cc-unsupported:%s:%s" % (arch, mn)] += 1
+                    break
+                ntkey = (arch, opt, ftag, tuple(args), tuple(arr)) if len(out["trace"]) >= 8 else None
+                sample = None
+                if ntkey and len(res.samples) < 3 and opt == "-O2":
+                    sample = {"kind": "cc", "arch": arch, "opt": opt, "function": ftag, "args": [hex(a) for a in args],
+                              "instructions_executed": len(out["trace"])}
+                res.case(nontrivial_key=ntkey, sample=sample)
+                res.counters["cc:%s:%s" % (stratum, arch)] += 1
+                res.counters["cc-opt:%s" % opt] += 1
+                for _a, txt in out["trace"]:
+                    mncount[txt.split(None, 1)[0]] += 1
+                if status == "pass":
+                    continue
+                case = {"kind": "cc", "arch": arch, "opt": opt, "tag": ftag, "src": src, "args": list(args),
+                        "arr": list(arr)}
+                bk, det = cc_explain(ctx, case, out, status, resource, detail)
+                case["_bucket"] = bk
+                res.fail(bk, det, case)
+                if status == "error":
+                    break           # the same lifting / evaluation error would repeat for every input
+        for mn, n in mncount.items():
+            res.counters["cc-mn:%s:%s" % (arch, mn)] += n
 
     # -- (im) ---------------------------------------------------------------------------------
     def run_im(self, res, tier, seed, shard, nshards):
